@@ -521,6 +521,49 @@ theorem f9_valid_edit_accepted {T W : Type} (parse : Lines → Option W) (guard 
     rw [e]; exact ⟨rfl, by rw [hs]⟩
   · simp only at hf; rw [hs, h2] at hf; cases hf
 
+/-! ## header-only reparse: the old blocks on the new header -/
+
+/-- **header_graft_keeps_old_blocks**: after a header-only reparse every block field the old node has — EMPTY lists
+included — is the block field of the result; only a field the old node does not have keeps what the wrapper parse put
+there. -/
+theorem header_graft_keeps_old_blocks (old new : Blocks) :
+    (∀ l, old.body = some l → (graftBlocks old new).body = some l)
+    ∧ (∀ l, old.handlers = some l → (graftBlocks old new).handlers = some l)
+    ∧ (∀ l, old.orelse = some l → (graftBlocks old new).orelse = some l)
+    ∧ (∀ l, old.finalbody = some l → (graftBlocks old new).finalbody = some l)
+    ∧ (∀ l, old.cases = some l → (graftBlocks old new).cases = some l)
+    ∧ (old.body = none → (graftBlocks old new).body = new.body)
+    ∧ (old.handlers = none → (graftBlocks old new).handlers = new.handlers)
+    ∧ (old.orelse = none → (graftBlocks old new).orelse = new.orelse)
+    ∧ (old.finalbody = none → (graftBlocks old new).finalbody = new.finalbody)
+    ∧ (old.cases = none → (graftBlocks old new).cases = new.cases) := by
+  refine ⟨?_, ?_, ?_, ?_, ?_, ?_, ?_, ?_, ?_, ?_⟩ <;> intros <;> simp_all [graftBlocks, keepOld]
+
+/-- **header_graft_same_class**: when the parsed header is a node of the same class (same set of block fields — the guard
+requires it), the blocks of the result are exactly the old blocks, all five, whatever the synthetic wrapper contained. -/
+theorem opt_graft {α : Type} (a b : Option α) (h : a.isSome = b.isSome) : keepOld a b = a := by
+  cases a <;> cases b <;> first | rfl | (simp [Option.isSome] at h)
+
+theorem header_graft_same_class (old new : Blocks)
+    (h1 : old.body.isSome = new.body.isSome) (h2 : old.handlers.isSome = new.handlers.isSome)
+    (h3 : old.orelse.isSome = new.orelse.isSome) (h4 : old.finalbody.isSome = new.finalbody.isSome)
+    (h5 : old.cases.isSome = new.cases.isSome) : graftBlocks old new = old := by
+  obtain ⟨b, h, o, f, c⟩ := old
+  simp only at h1 h2 h3 h4 h5
+  have e1 := opt_graft _ _ h1; have e2 := opt_graft _ _ h2; have e3 := opt_graft _ _ h3
+  have e4 := opt_graft _ _ h4; have e5 := opt_graft _ _ h5
+  simp only [graftBlocks]
+  rw [e1, e2, e3, e4, e5]
+
+/-- `try: ... finally: ...` without handlers: the wrapper parse of the header has the synthetic `except: pass` handler
+(kind 6 here), the old node has `handlers == []`; the result has no handler.  With a truthiness test instead of
+`is not None` (seeded change C10-seed2A, not the code) the synthetic handler would stay. -/
+theorem try_finally_no_phantom_handler :
+    let old : Blocks := { body := some [.mk 3 none []], handlers := some [], orelse := some [], finalbody := some [.mk 3 none []] }
+    let new : Blocks := { body := some [.mk 7 none []], handlers := some [.mk 6 none []], orelse := some [], finalbody := some [] }
+    (graftBlocks old new).handlers = some [] ∧ (graftBlocks old new).flat.length = 2 := by
+  exact ⟨rfl, rfl⟩
+
 /-! ## `clip_src_loc` and the returned end -/
 
 theorem lenAt_nonneg (lines : Lines) (i : Int) : 0 ≤ lenAt lines i := by simp [lenAt]
